@@ -179,6 +179,14 @@ func (server *Server) ServeCodec(codec ServerCodec) {
 			})
 		}
 	}
+	if !server.directIO {
+		// Requests read before the end of the stream may still sit on the decode
+		// queue; they add to the WaitGroup when they are dispatched, which must not
+		// happen concurrently with Wait. (FIFO queue: the sentinel runs last.)
+		drained := make(chan struct{})
+		pipeline.Schedule(func() { close(drained) })
+		<-drained
+	}
 	vhook("v.wait.begin", codec, nil, 0, 0)
 	wg.Wait()
 	vhook("v.wait.end", codec, nil, 0, 0)
@@ -546,6 +554,11 @@ func (server *Server) listen(sock socket.Socket, address string, New NewServerCo
 			if err == io.EOF || err == io.ErrUnexpectedEOF {
 				if atomic.CompareAndSwapInt32(&svrctx.closed, 0, 1) {
 					vhook("v.eof", svrctx.codec, nil, 0, 1)
+					if !server.directIO {
+						drained := make(chan struct{})
+						svrctx.pipeline.Schedule(func() { close(drained) })
+						<-drained
+					}
 					vhook("v.wait.begin", svrctx.codec, nil, 0, 1)
 					svrctx.wg.Wait()
 					vhook("v.wait.end", svrctx.codec, nil, 0, 1)
